@@ -366,6 +366,13 @@ Proof.
     destruct (snap_idx data (txs data s) we); [|discriminate].
     inversion E; subst. apply Same. reflexivity.
   - destruct (pc data s); try discriminate. inversion E; subst. apply Same. reflexivity.
+  - destruct (pc data s); try discriminate.
+    destruct (needs_post true m rb); [|discriminate].
+    destruct (do_sync data lock true true (strict_ss data s) k) eqn:Ed; [|discriminate]. inversion E; subst.
+    apply Same. cbn. erewrite do_sync_acks; [|exact Ed]. reflexivity.
+  - destruct (in_call (pc data s) && opened data s); [|discriminate]. inversion E; subst.
+    apply Same. unfold fail_st.
+    destruct (ls_mark data s); destruct (clear && fail_clears (pc data s)); reflexivity.
 Qed.
 
 Lemma run_safe ls : forall s s',
@@ -415,7 +422,7 @@ End Fixed.
       ([kill_ok]) and the error exit [LsBumpFail] *)
 
 Definition nokill_label (data : Type) (l : label data) : bool :=
-  match l with LsKill _ | LsBumpFail _ => false | _ => true end.
+  match l with LsKill _ | LsBumpFail _ | LsFail _ _ => false | _ => true end.
 
 Lemma steps_window_nokill (data : Type) (lock : N) (midcheck : bool) ls : forall (s : state data),
   forallb (nokill_label data) ls = true -> steps_window data lock midcheck true true true true s ls.
